@@ -363,6 +363,17 @@ def run_history(h, fresh_oracle=True):
             return 'COORD'
         except Exception as ex:  # noqa: BLE001
             return 'PYERR ' + type(ex).__name__
+    def _kind_ca(o, vn, q):
+        try:
+            o.component_at(vn, q)
+            return 'VAL'
+        except DomainError:
+            return 'DOMERR'
+        except CoordinateMissing:
+            return 'COORD'
+        except Exception as ex:  # noqa: BLE001
+            return 'PYERR ' + type(ex).__name__
+
     def _fresh_copy(sname, like):
         """a never-used copy of the derivative object in slot [sname], in the same symbolic state as [like]"""
         wf = World(h)
@@ -394,6 +405,15 @@ def run_history(h, fresh_oracle=True):
                     if copy is None:
                         continue
                     kc = _kind(copy, wf.points[k])   # ... the answer at this point is that of a never-used copy
+                    if ku == kc and isinstance(used, Differential):
+                        # ... and so is every component asked through component_at
+                        for vn in sorted(used._original_expression._variable_names) + ['v9']:
+                            _kind_ca(used, vn, w.points[kp])
+                            ku = _kind_ca(used, vn, w.points[k])
+                            copy, wf = _fresh_copy(sname, used)
+                            kc = _kind_ca(copy, vn, wf.points[k])
+                            if ku != kc:
+                                break
                     if ku != kc and not ku.startswith('PYERR') and not kc.startswith('PYERR'):
                         final.append({'slot': sname, 'after_point': kp, 'at_point': k, 'used_object': ku, 'fresh_copy': kc})
                         found = True
